@@ -39,6 +39,8 @@ CONTENTS = {
     'C': [[ev(1, 1, 5.5)], [ev(2, 1, 5.5), ev(3, 2, 6.5), ev(4, 2, 6.5)]],
     # the FIRST catalog is empty, and empty catalogs repeat
     'E': [[], [ev(1, 0, 5.5)], [], [ev(2, 3, 6.5), ev(3, 3, 5.5)], []],
+    # a larger forecast: 14 catalogs, sizes 0..6, all in range
+    'L': [[ev(10 * j + i, (i + j) % 4, 5.5 + (i % 2)) for i in range(j % 7)] for j in range(14)],
     # events below the minimum magnitude (need the magnitude filter)
     'Bm': [[ev(1, 0, 4.0), ev(2, 1, 5.5)], [ev(3, 2, 4.0)], [ev(4, 3, 6.5), ev(5, 3, 4.5)]],
     # events outside the region (need the spatial filter)
@@ -57,12 +59,12 @@ def region():
 
 def contents_for(fmag, fsp):
     if fmag and fsp:
-        return ['A', 'Bb', 'Bm', 'E']
+        return ['A', 'Bb', 'Bm', 'E', 'L']
     if fmag:
-        return ['A', 'Bm', 'C', 'E']
+        return ['A', 'Bm', 'C', 'E', 'L']
     if fsp:
-        return ['A', 'Bs', 'C', 'E']
-    return ['A', 'C', 'E']
+        return ['A', 'Bs', 'C', 'E', 'L']
+    return ['A', 'C', 'E', 'L']
 
 
 def cases(tier, seed):
